@@ -81,7 +81,9 @@ def malformed_lines(rng, line, tier):
     for i in rng.sample(range(len(line) + 1), min(len(line) + 1, 12 if tier == 'quick' else 60)):
         for tok in (b',', b'*', b'\\', b'\n', b'\xff', b'0', b'-'):
             out.append(('ins%d=%r' % (i, tok), line[:i] + tok + line[i:]))
-    out += [('ws', b' '), ('ws2', b'\r\n'), ('empty', b''), ('bang-star', b'!*xVDM,1,1,,A,1,0*00'),
+    out += [('noise1', b'\xff\xfe\xfd'), ('noise2', b'!\xc3\xa9'), ('noise3', b'$\xf8'), ('noise4', b'caf\xe9 du port'),
+            ('noise5', b'\\\xe6\xb8\xaf'), ('noise6', b'!AIVDM,\xff'), ('noise7', b'\xe2\x82'),
+            ('ws', b' '), ('ws2', b'\r\n'), ('empty', b''), ('bang-star', b'!*xVDM,1,1,,A,1,0*00'),
             ('only-tag', b'\\s:x*11\\'), ('no-close', b'\\s:x*11!AIVDM,1,1,,A,15M67FC000G?ufbE`FepT@3n00Sa,0*5C')]
     return out
 
